@@ -194,6 +194,13 @@ func (r *replicator) Load(ctx context.Context, entries []ipfslog.Entry) {
 	// what an earlier, aborted request left unfetched belongs to the ancestry of entries
 	// that may already be in the log, and would never be asked for again otherwise
 	for hash, state := range r.tasks {
+		if state == stateAdded || state == stateFetching {
+			// earlier requests are at work: what they are fetching may belong to the ancestry
+			// of the heads of this one (which may well be in the log already), and may still
+			// be given up
+			req.involved.Store(true)
+		}
+
 		if state != stateFailed {
 			continue
 		}
